@@ -246,3 +246,107 @@ def _arrayish(term: P) -> bool:
     while a and a[0] in ("sub", "T"):
         a = a[1].as_atom()
     return bool(a and a[0] == "attr" and a[2] in ARRAY_ATTRS)
+
+
+# ------------------------------------------------------------------------------------------------ parameter mutation
+_ALIAS_FUNCS = {"numpy.asarray", "numpy.asanyarray", "numpy.ascontiguousarray", "numpy.atleast_1d", "numpy.atleast_2d", "numpy.atleast_3d",
+                "numpy.ravel", "numpy.reshape", "numpy.squeeze", "numpy.transpose", "numpy.swapaxes", "numpy.moveaxis", "numpy.rollaxis",
+                "numpy.real", "numpy.imag", "numpy.broadcast_to", "memoryview", "iter", "reversed"}
+_ALIAS_METHODS = {"get", "reshape", "ravel", "view", "squeeze", "transpose", "swapaxes", "values", "items", "setdefault", "__getitem__"}
+_INPLACE_METHODS = {"sort", "fill", "resize", "put", "itemset", "partition", "byteswap", "append", "extend", "insert", "remove", "pop", "clear",
+                    "update", "reverse", "popitem", "add", "discard", "setfield"}
+
+
+def alias_roots(term: P, params, extra=frozenset()) -> set:
+    """Parameter names that ``term`` may be (a view of / an element of)."""
+    a = term.as_atom()
+    if a is None:
+        return set()
+    tag = a[0]
+    if tag == "name":
+        return {a[1]} if a[1] in params else set()
+    if tag in ("sub", "attr", "T"):
+        return alias_roots(a[1], params, extra)
+    if tag == "obj":
+        return alias_roots(a[3], params, extra)
+    if tag == "ite":
+        return alias_roots(a[2], params, extra) | alias_roots(a[3], params, extra)
+    if tag == "comp":
+        return alias_roots(a[3] if a[1] == "DictComp" else a[2], params, extra)
+    if tag == "tuple":
+        out = set()
+        for x in a[1]:
+            out |= alias_roots(x, params, extra)
+        return out
+    if tag == "dict":
+        out = set()
+        for kv in a[1]:
+            out |= alias_roots(kv[-1], params, extra)
+        return out
+    if tag == "call":
+        cn = call_name(a) or ""
+        if cn in _ALIAS_FUNCS and a[2]:
+            return alias_roots(a[2][0], params, extra)
+        if cn.startswith(".") and (cn[1:] in _ALIAS_METHODS or cn[1:] in extra):
+            return alias_roots(a[1].as_atom()[1], params, extra)
+    return set()
+
+
+def param_mutations(repo, mod, qual, depth=0, _seen=None, extra=frozenset()):
+    """{param name: [description]} : parameters of a function that it may modify in place (directly, through views obtained
+    with asarray/reshape/get/slicing, through ``out=`` arguments, in-place methods, or by handing them to a function that does)."""
+    _seen = _seen if _seen is not None else set()
+    if (mod.rel, qual) in _seen or depth > 3 or qual not in mod.funcs:
+        return {}
+    _seen.add((mod.rel, qual))
+    ev = Ev(mod.funcs[qual], mod.ctx).run()
+    params = set(ev.param_names)
+    out = {}
+
+    def hit(roots, what, e):
+        for r in roots:
+            out.setdefault(r, []).append(f"line {getattr(e.node, 'lineno', '?')}: {what}")
+    for e in ev.events:
+        if e.kind in ("store", "aug"):
+            t = e.target.as_atom()
+            if t and t[0] in ("sub", "attr"):
+                hit(alias_roots(t[1], params, extra), f"writes into {str(e.target)[:60]}", e)
+        elif e.kind == "assign" and e.extra.get("aug") and e.extra.get("old") is not None:
+            old = e.extra["old"]
+            oa = old.as_atom()
+            if oa and oa[0] in ("call", "sub", "attr", "obj"):          # an array view, not a plain scalar parameter
+                hit(alias_roots(old, params, extra), f"in-place {e.extra['aug']} on {str(old)[:60]}", e)
+        elif e.kind == "call":
+            a = e.value.as_atom()
+            if not a or a[0] != "call":
+                continue
+            kw = dict(a[3]) if len(a) > 3 and a[3] else {}
+            if "out" in kw:
+                hit(alias_roots(kw["out"], params, extra), f"out={str(kw['out'])[:50]} in {call_name(a)}", e)
+            c = e.target.as_atom() if e.target is not None else None
+            if c and c[0] == "attr" and c[2] in _INPLACE_METHODS:
+                hit(alias_roots(c[1], params, extra), f"in-place method .{c[2]}()", e)
+            # interprocedural
+            callee = a[1].as_atom()
+            tgt = None
+            if callee and callee[0] == "name":
+                nm = callee[1]
+                if "." not in nm and nm in mod.funcs:
+                    tgt = (mod, nm)
+                elif nm.startswith("chmpy.") or mod.ctx.alias.get(nm, "").startswith("chmpy."):
+                    full = nm if nm.startswith("chmpy.") else mod.ctx.alias[nm]
+                    r = repo.resolve_symbol(full) if repo is not None else None
+                    if r and r[1] in r[0].funcs:
+                        tgt = r
+            if tgt is not None:
+                sub = param_mutations(repo, tgt[0], tgt[1], depth + 1, _seen, extra)
+                if sub:
+                    fn = tgt[0].funcs[tgt[1]]
+                    pn = [x.arg for x in fn.args.args]
+                    for i, arg in enumerate(a[2]):
+                        if i < len(pn) and pn[i] in sub:
+                            hit(alias_roots(arg, params, extra), f"passed to {tgt[1]}() which modifies its argument '{pn[i]}' ({sub[pn[i]][0]})", e)
+                    for k, v in kw.items():
+                        if k in sub:
+                            hit(alias_roots(v, params, extra), f"passed as {k}= to {tgt[1]}() which modifies it", e)
+    return out
